@@ -215,8 +215,20 @@ def run(ctx, rep):
     rep.check("C18.c", "compression/level-range/every-path", only_via(st2[0], is_call(r"::contains$"), True), where=span_str(st2[2][3]),
               what="every path that stores config.compression has seen zstd's level range contain it")
     (st3, _) = store_conds("min_packsize_tolerate_percent")
-    rep.check("C18.c", "min-percent/every-path", only_via(st3[0], is_cmp(("Gt",), {"percent", "set_min_packsize_tolerate_percent"}, {100}), False), where=span_str(st3[2][3]),
-              what="every path that stores min_packsize_tolerate_percent has seen `percent > 100` evaluate to false")
+    # decided for sample values (the spelling `> 100` / `>= 101` does not matter): stored exactly for percent <= 100
+    SAMP = [0, 1, 50, 99, 100, 101, 150, 4000]
+    isv = lambda fld: (lambda x: fld in repr(x))
+    got = {v: st3[0] in reachable_with_value(A, isv("set_min_packsize_tolerate_percent"), v) for v in SAMP}
+    okmin = all(got[v] == (v <= 100) for v in SAMP)
+    rep.check("C18.c", "min-percent/every-path", okmin, where=span_str(st3[2][3]),
+              what="min_packsize_tolerate_percent is stored exactly for values <= 100 (evaluated for sample values)" if okmin else
+                   f"min_packsize_tolerate_percent is stored for {[v for v in SAMP if got[v]]} (must be exactly the values <= 100)")
+    (st4, _) = store_conds("max_packsize_tolerate_percent")
+    got4 = {v: st4[0] in reachable_with_value(A, isv("set_max_packsize_tolerate_percent"), v) for v in SAMP}
+    okmax = all(got4[v] == (not (0 < v < 100)) for v in SAMP)
+    rep.check("C18.c", "max-percent/every-path", okmax, where=span_str(st4[2][3]),
+              what="max_packsize_tolerate_percent is stored exactly for 0 (no limit) and values >= 100 (evaluated for sample values)" if okmax else
+                   f"max_packsize_tolerate_percent is stored for {[v for v in SAMP if got4[v]]} (must be exactly 0 and the values >= 100)")
     rep.check("C18.c", "version/range", has_call(conds, r"RangeInclusive::<Idx>::contains$|RangeInclusive<.*>::contains$|::contains$", True), where=span_str(st[2][3]),
               what="config.version is stored only if the allowed-version range contains it")
     op = has_cmp(conds, ("Lt",), {"version", "set_version"}, {"version"}, False)
@@ -226,13 +238,6 @@ def run(ctx, rep):
     rep.check("C18.c", "compression/level-range", has_call(conds, r"::contains$", True), where=span_str(st[2][3]), what="config.compression is stored only if zstd's level range contains it")
     rep.check("C18.c", "compression/v1", any(ex[0] == "bin" and ex[1] in ("Eq", "Ne") and "version" in expr_names(A, ex) for ex, _, _ in conds), where=span_str(st[2][3]),
               what="config.compression is stored only after the v1-repository test")
-    (st, conds) = store_conds("min_packsize_tolerate_percent")
-    rep.check("C18.c", "min-percent", has_cmp(conds, ("Gt",), {"percent", "set_min_packsize_tolerate_percent"}, {100}, False) is not None, where=span_str(st[2][3]),
-              what="min_packsize_tolerate_percent is stored only if `percent > 100` is false")
-    (st, conds) = store_conds("max_packsize_tolerate_percent")
-    rep.check("C18.c", "max-percent", any(ex[0] == "bin" and ex[1] == "Lt" and 100 in expr_names(A, ex) for ex, _, _ in conds)
-              and any(ex[0] == "bin" and ex[1] == "Gt" and 0 in expr_names(A, ex) for ex, _, _ in conds), where=span_str(st[2][3]),
-              what="max_packsize_tolerate_percent is stored only outside the refused range 0 < percent < 100")
     # ---- C18.d ------------------------------------------------------------------------------------
     AC = prog.find1(r"^rustic_core::commands::config::apply_config$")
     APPLY = call_pred(r"^rustic_core::commands::config::ConfigOptions::apply$")
